@@ -392,11 +392,11 @@ public:
   bool TraverseCXXConstructorDecl(CXXConstructorDecl *FD) { stack.push_back(FD); bool r = RecursiveASTVisitor::TraverseCXXConstructorDecl(FD); stack.pop_back(); return r; }
   bool TraverseCXXDestructorDecl(CXXDestructorDecl *FD) { stack.push_back(FD); bool r = RecursiveASTVisitor::TraverseCXXDestructorDecl(FD); stack.pop_back(); return r; }
   bool TraverseCXXConversionDecl(CXXConversionDecl *FD) { stack.push_back(FD); bool r = RecursiveASTVisitor::TraverseCXXConversionDecl(FD); stack.pop_back(); return r; }
-  std::set<std::string> allk; json::Array All;
+  std::set<std::string> allk; json::Array All; std::set<const FunctionDecl*> visitedSpecs;
   bool VisitFunctionDecl(FunctionDecl *FD) { if (FD->doesThisDeclarationHaveABody() && X.inRoot(FD->getLocation())) { auto k = X.fkey(FD); if (allk.insert(k).second) All.push_back(json::Object{{"key",k},{"name",X.fq(FD)}}); } one(FD, nullptr); return true; }
   bool VisitLambdaExpr(LambdaExpr *LE) {
     const FunctionDecl *Parent = stack.empty()?nullptr:stack.back();
-    if (auto *CO = LE->getCallOperator()) { if (auto *FTD = CO->getDescribedFunctionTemplate()) { for (auto *Spec : FTD->specializations()) one(Spec, Parent); } else one(CO, Parent); }
+    if (auto *CO = LE->getCallOperator()) { if (auto *FTD = CO->getDescribedFunctionTemplate()) { for (auto *Spec : FTD->specializations()) { one(Spec, Parent); if (Spec->doesThisDeclarationHaveABody() && !Spec->isDependentContext() && visitedSpecs.insert(Spec).second) TraverseStmt(Spec->getBody()); } } else one(CO, Parent); }
     return true;
   }
   bool VisitCXXRecordDecl(CXXRecordDecl *RD) {
